@@ -73,3 +73,84 @@ theorem unknown_suback_is_error (e : Engine) (s : Suback) (hs : stateBlocksAcks 
   simp [Engine.handleSuback, Engine.handleUnsuback, hs, hl]
 
 end GV.Props.C11
+
+namespace GV.Props.C11
+open GV
+
+/-! ### after an error: every continuation until the connection is closed -/
+
+/-- events a driver may still deliver to a halted engine before it closes the connection (everything except
+    "connection closed" and the client-level reset) -/
+def beforeClose : Event → Bool
+  | .closed _ => false
+  | .reset _ => false
+  | _ => true
+
+theorem submit_halted (e : Engine) (packet : Packet) (user : Option (Nat × Option Nat)) (q : QueueKind) (front : Bool) (h : e.state = .halted) :
+    (e.submit packet user q front).1.state = .halted ∧ (e.submit packet user q front).1.outBytes = e.outBytes ∧
+    (e.submit packet user q front).1.outEvents = e.outEvents := by
+  unfold Engine.submit
+  simp only []
+  have hc : (e.createOp packet user).1.state = .halted ∧ (e.createOp packet user).1.outBytes = e.outBytes ∧
+      (e.createOp packet user).1.outEvents = e.outEvents := by simp [Engine.createOp, h]
+  split
+  · have hs := completeFailure_state (e.createOp packet user).1 (e.createOp packet user).2 "OfflineQueuePolicyFailed" (by rw [hc.1]; decide)
+    have hk := completeFailure_same (e.createOp packet user).1 (e.createOp packet user).2 "OfflineQueuePolicyFailed"
+    exact ⟨by simp only []; rw [hs]; exact hc.1, by simp only []; rw [hk.outBytes]; exact hc.2.1, by simp only []; rw [hk.outEvents]; exact hc.2.2⟩
+  · cases henq : (e.createOp packet user).1.enqueue (e.createOp packet user).2 q front with
+    | none => exact hc
+    | some e2 =>
+      simp only []
+      unfold Engine.enqueue at henq
+      split at henq
+      · cases henq
+      · cases q <;> simp only [] at henq <;> cases henq <;> exact hc
+
+theorem handleUser_halted (e : Engine) (u : UserEvent) (h : e.state = .halted) :
+    (e.handleUser u).1.state = .halted ∧ (e.handleUser u).1.outBytes = e.outBytes ∧ (e.handleUser u).1.outEvents = e.outEvents := by
+  cases u <;> exact submit_halted e _ _ _ _ h
+
+/-- **A halted engine stays halted and silent under every event a driver can still deliver before it closes the
+    connection** — user submissions, inbound bytes, write completions, service calls, time queries, even a
+    spurious "connection opened": no byte is emitted, no packet is surfaced, and the state stays Halted. -/
+theorem halted_step_silent (e : Engine) (ev : Event) (h : e.state = .halted) (hb : beforeClose ev = true) :
+    (step e ev).1.state = .halted ∧ (step e ev).2.bytes = [] ∧ (step e ev).2.events = [] := by
+  cases ev with
+  | closed t => simp [beforeClose] at hb
+  | reset t => simp [beforeClose] at hb
+  | user t u =>
+    have hu := handleUser_halted (e.begin t) u (by simp [Engine.begin, h])
+    simp only [step, Engine.finish]
+    exact ⟨hu.1, by rw [hu.2.1]; rfl, by rw [hu.2.2]; rfl⟩
+  | opened t d =>
+    have hs : ((e.begin t).state != .disconnected) = true := by simp [Engine.begin, h]
+    have ho : (e.begin t).handleOpened d = ({ (e.begin t) with state := .halted }, .err "InternalStateError") := by
+      simp only [Engine.handleOpened, hs, ↓reduceIte]
+    simp only [step]
+    rw [ho]
+    simp [haltOnErr, Engine.finish, Engine.begin]
+  | data t bs => exact ⟨(halted_rejects_data e t bs h).2.2.2.2, (halted_rejects_data e t bs h).2.1, (halted_rejects_data e t bs h).2.2.2.1⟩
+  | writeDone t =>
+    simp [step, Engine.begin, Engine.handleWriteCompletion, h, haltOnErr, Engine.finish]
+  | service t cap pre =>
+    simp [step, Engine.begin, Engine.service, h, Engine.finish]
+  | queryNext t => simp [step, Engine.begin, h]
+
+/-- **Every continuation.**  After an error has halted the engine, for every sequence of such events, of any length
+    and in any order, the engine emits nothing at all and accepts no traffic, until the connection is closed. -/
+theorem halted_run_silent (evs : List Event) : ∀ (e : Engine), e.state = .halted → (∀ ev ∈ evs, beforeClose ev = true) →
+    (evs.foldl (fun (acc : Engine × Bytes × List Packet) ev =>
+        let (e', o) := step acc.1 ev
+        (e', acc.2.1 ++ o.bytes, acc.2.2 ++ o.events)) (e, [], [])).2 = ([], []) ∧
+    (evs.foldl (fun (acc : Engine × Bytes × List Packet) ev =>
+        let (e', o) := step acc.1 ev
+        (e', acc.2.1 ++ o.bytes, acc.2.2 ++ o.events)) (e, [], [])).1.state = .halted := by
+  induction evs with
+  | nil => intro e h _; exact ⟨rfl, h⟩
+  | cons ev rest ih =>
+    intro e h hall
+    have hs := halted_step_silent e ev h (hall ev (List.mem_cons_self ..))
+    simp only [List.foldl, hs.2.1, hs.2.2, List.append_nil]
+    exact ih (step e ev).1 hs.1 (fun x hx => hall x (List.mem_cons_of_mem _ hx))
+
+end GV.Props.C11
